@@ -8,6 +8,7 @@ pub mod props_direct;
 pub mod props_runtime;
 pub mod props_validate;
 pub mod props_validate2;
+pub mod props_round7;
 pub mod refspec;
 pub mod util;
 
